@@ -257,6 +257,7 @@ impl World {
         let _ = guarded(|| stat::reset_resource_map());
         verif::system::set_system_load(0.0);
         verif::system::set_cpu_usage(0.0);
+        verif::system::set_memory_usage(0);
         self.rule_ptrs.clear();
         self.rule_recs.lock().unwrap().clear();
         self.resources.clear();
@@ -672,6 +673,10 @@ impl World {
                 "syscpu" => {
                     self.set_clock(&mut ev);
                     verif::system::set_cpu_usage(num(&ev["v"]) as f32);
+                }
+                "sysmem" => {
+                    self.set_clock(&mut ev);
+                    verif::system::set_memory_usage(u(&ev, "v"));
                 }
                 other => panic!("unknown world event {}", other),
             }
